@@ -205,6 +205,8 @@ def body(prop, cfg, tier, seed, replay, scratch, violations, known_hits, notes, 
             return kf
         return None
 
+    if cfg.get("viol_filter"):
+        viols = cfg["viol_filter"](viols)
     reported = 0
     seen_cls = {}
     for v in viols:
